@@ -7,6 +7,8 @@ import warnings
 
 import numpy as np
 
+from hyverif.core import digest
+
 ID = "C17"
 SHARDS = {"quick": 8, "thorough": 16}
 BUDGET = {"quick": 300, "thorough": 1800}
@@ -197,6 +199,14 @@ def run_case(ctx, case):
     # residual(sim(e)) == e  (NaN -> 0)
     ctx.api("armodel_residual")
     r = call(ar.armodel_residual, params, y.copy(), **kw)
+    # the same numbers in another memory layout / container / exact dtype
+    if n >= 1 and p > 1:
+        prng = np.random.default_rng(digest(phi, e) % 2 ** 32)
+        ctx.presentations("armodel_sim", lambda p_, e_: call(ar.armodel_sim, p_, e_, **kw),
+                          [phi, e], y, case, prng, n=1)
+        ctx.presentations("armodel_residual",
+                          lambda p_, y_: call(ar.armodel_residual, p_, y_, **kw),
+                          [phi, y], r, case, prng, n=1)
     e0 = np.where(np.isnan(e), 0.0, e)
     if stable and n:
         # bound: residual of y recomputes pred from y itself; error dominated by yb
